@@ -37,4 +37,9 @@ type Convergen interface {
 	// :map Title() Title
 	// :skip Home.Zip
 	Paths(*Src) *Dst
+	// ViaPtr: explicit source paths through pointers that may be nil.
+	// :map Work.City Name
+	// :conv Upper Work.City Code
+	// :map Geo.Lat Count
+	ViaPtr(*Src) *Dst
 }
